@@ -686,6 +686,30 @@ op('lu_factor', lambda rng, D, P, t: [U(gen_square(rng, D, P, rng.randint(1, 3))
    lambda a: UTPM.lu_factor(a[0]), None, tags=('linalg', 'factor'))
 op('eigh', lambda rng, D, P, t: [U(gen_square(rng, D, P, rng.randint(1, 3), 'sym'))],
    lambda a: algopy.eigh(a[0]), lambda z: np.linalg.eigh(z[0]), tags=('linalg', 'factor'))
+def _twice(F):
+    """the same output of a multi-output operation taken twice (F = qr(A); F[0] ... F[0]): two item reads of one tuple-valued node"""
+    a1, b, a2 = F[0], F[1], F[0]
+    return a1 * 1.5 + algopy.dot(a2, b) if np.ndim(a1) == np.ndim(b) == 2 else a1 * 1.5 + a2 * a2 + algopy.sum(b)
+
+
+op('qr:twice', lambda rng, D, P, t: [U(gen_tall(rng, D, P, 3, 3))], lambda a: _twice(algopy.qr(a[0])), None, tags=('linalg', 'factor'))
+op('eigh:twice', lambda rng, D, P, t: [U(gen_square(rng, D, P, 3, 'sym'))], lambda a: _twice(algopy.eigh(a[0])), None, tags=('linalg', 'factor'))
+op('lu:twice', lambda rng, D, P, t: [U(gen_square(rng, D, P, 3))], lambda a: (lambda F: F[1] * 1.5 + algopy.dot(F[1], F[2]))(algopy.lu(a[0])), None,
+   tags=('linalg', 'factor'))
+
+
+def _gen_pow_big(rng, D, P, tier):
+    """Python-int exponents beyond 64 (square and multiply); base points near one so that the power stays of order one"""
+    s = _shape(rng, tier)
+    r = rng.choice([65, 70, 100, 129])
+    x = rand_coeffs(rng, (D, P) + s, -1, 1) / float(r)
+    x[0] = 1.0 + rand_coeffs(rng, (P,) + s, -1, 1) / float(r)
+    return [U(x), Kp(r)]
+
+
+op('pow:big', _gen_pow_big, lambda a: a[0] ** int(a[1]), lambda z: z[0] ** int(z[1]), tags=('arith',))
+
+
 def _gen_qr_rankdef(rng, D, P, tier):
     # square matrices; ONE direction has a rank-deficient base point (the kernels detect the rank of A_0 per direction)
     n = rng.choice([3, 4])
